@@ -1196,6 +1196,7 @@ class Hist:
         self.nround = 0
         self.flts = self.cflts = self.targets = None
         self.full = False
+        self.touched = set()        # objects the steps since the last round were about (always asked in that round)
         self.mof_seen, self.mof_stale = set(), set()     # classes the MOF compiler has looked at / that changed since
         self.step('qualifier declarations in root/a (mof)', self.conn.compile_mof_string, QUAL_MOF, namespace='root/a')
 
@@ -1324,6 +1325,7 @@ class Hist:
         else:
             self.step(txt, self.conn.compile_mof_string, 'instance of %s { Id = "%s"; };' % (cls, nid), namespace=ns)
         self.m[ns].nodes[nodekey(n)] = n
+        self.touched.add(nodekey(n))
         return n
 
     def add_assoc(self, req, cls, ends, via='create', aid=None):
@@ -1358,6 +1360,7 @@ class Hist:
             self.step(txt, self.conn.compile_mof_string, 'instance of %s { %s};' % (cls, body), namespace=req)
         for ns in nss:
             self.m[ns].assocs[aid] = rec
+        self.touched.update(nodekey(e) for _, e in ends)
         return aid
 
     def holders(self, aid):
@@ -1373,6 +1376,7 @@ class Hist:
                                                         path=self.apath(old, ns)))
         for o in self.holders(aid):
             self.m[o].assocs[aid] = rec
+        self.touched.update(nodekey(e) for _, e in old.ends + rec.ends)
 
     def delete_assoc(self, aid, via_ns=None):
         ns = via_ns or self.holders(aid)[0]
@@ -1380,6 +1384,7 @@ class Hist:
         self.step('DeleteInstance %s %s through %s' % (rec.cls, aid, ns), self.conn.DeleteInstance, self.apath(rec, ns))
         for o in self.m.values():
             o.assocs.pop(aid, None)
+        self.touched.update(nodekey(e) for _, e in rec.ends)
 
     def detach(self, n):
         k = nodekey(n)
@@ -1452,10 +1457,15 @@ class Hist:
         out.sort(key=lambda s: (s[0], s[1]))       # same id in one namespace, then in the other
         missing = ('root/a', 'N_Base', 'missing')
         out.append(('missing', 'root/a', 'missing root/a:N_Base.Id=missing', self.npath(missing), nodekey(missing)))
-        if self.quick:
+        if self.quick:      # what the last steps were about, then a seeded sample of the rest
             nodes = [s for s in out if s[0][0] != '~']
             recs = [s for s in out if s[0][0] == '~']
-            out = nodes[:6] + nodes[-1:] + self.rnd.sample(recs, min(1, len(recs)))
+            hot = [s for s in nodes if s[4] in self.touched]
+            hot = self.rnd.sample(hot, min(4, len(hot)))
+            cold = [s for s in nodes if s not in hot]
+            out = sorted(hot + self.rnd.sample(cold, min(7 - len(hot), len(cold))), key=lambda s: (s[0], s[1])) + \
+                self.rnd.sample(recs, min(1, len(recs)))
+        self.touched.clear()
         return [s[1:] for s in out]
 
     # -- one round: the model against the server
